@@ -14,6 +14,7 @@ mod c06;
 mod c11;
 mod c14;
 mod c09;
+mod c17;
 
 #[global_allocator]
 static GLOBAL: allocrec::Rec = allocrec::Rec;
@@ -40,6 +41,7 @@ fn main() {
         "C02" => c02::run(&mut out, tier, seed, corpus.as_deref()),
         "C08" => c08::run(&mut out, tier, seed, corpus.as_deref()),
         "C09" | "C18" | "C19" => c09::run(&mut out, tier, seed, corpus.as_deref(), prop),
+        "C17" => c17::run(&mut out, tier, seed, corpus.as_deref()),
         "C14" => c14::run(&mut out, tier, seed, corpus.as_deref()),
         "C11" | "C10" => c11::run(&mut out, tier, seed, corpus.as_deref(), prop),
         "C06" | "C07" => c06::run(&mut out, tier, seed, corpus.as_deref(), prop),
